@@ -10,7 +10,8 @@ Part A  render_dependencies(): every document of <= L tokens over a hostile toke
         2.18 M calls); thorough adds all documents of 5 tokens over the 16-token alphabet in which
         the nine preserved-text tokens are merged into one (1 394 777 documents, 9.06 M calls).
 Part B  ComponentDependencyMiddleware: all documents <= 2 tokens x content types x
-        {HttpResponse, StreamingHttpResponse} x {sync, async} (12 308 responses).
+        {HttpResponse, StreamingHttpResponse} x {sync, async}; the content types include bodies whose
+        bytes are not valid in the declared charset (latin-1 under utf-8, utf-8 under us-ascii).
 
 Reference (works on the token list, never on the string): drop marker tokens; fragment: drop
 placeholders, append the JS tags; document: a kind whose placeholder occurs is inserted at every
@@ -64,8 +65,10 @@ def _build(seed: int) -> dict:
     def mk(name, **attrs):
         return type(name, (Component,), {"__module__": "verif_c08", **attrs})
 
-    A = mk("C08A", template="<p>a</p>", js="console.log('A');", css=".a{color:red}")
-    B = mk("C08B", template="<p>b</p>", js="console.log('B');")
+    # the inlined scripts carry backslash sequences (regex-template look-alikes: \\n \\1 \\g<0> \\d, CSS escapes): the
+    # generated tags must reach every insertion point - placeholder or default location - byte for byte
+    A = mk("C08A", template="<p>a</p>", js="console.log('A');", css='.a{color:red;content:"\\201C \\\\"}')
+    B = mk("C08B", template="<p>b</p>", js="console.log('B\\n\\1\\g<0>\\d');")
     P = mk("C08P", template="{% component_css_dependencies %}{% component_js_dependencies %}")
 
     if "c08p" in registry.all():
@@ -355,6 +358,10 @@ CONTENT_TYPES = [
     ("text/html", True, "utf8"),
     ("text/html; charset=utf-8", True, "utf8"),
     ("text/html; charset=iso-8859-1", True, "latin1"),
+    # body bytes that are NOT valid in the declared charset (legacy latin-1 page served under Django's default
+    # utf-8; utf-8 page declared us-ascii): every byte the middleware does not own must still be preserved
+    ("text/html; charset=utf-8", True, "latin1"),
+    ("text/html; charset=us-ascii", True, "utf8"),
     ("application/json", False, "utf8"),
     ("text/plain", False, "utf8"),
     (None, False, "utf8"),
